@@ -404,9 +404,11 @@ PROPS["C20"] = {
     "explanation": "For each enumerated shape the derived update() makes exactly one submission per member, in declaration order (trader tag k+1 at position k), hands draw k of the shared generator to member k (so the generator is shared, not cloned or reseeded), runs each member's own update, and is interchangeable with the hand-written sequence of calls on a twin environment.",
     "stubs": [],
     "harnesses": [de("c20_agentset_1_2_3", "AgentSet: 1, 2 (mixed types), 3 fields (repeated type) + twin with hand-written calls", covers=["cover.distinct_words"], tests=True, timeout=900, replayable=False),
-                  de("c20_agentset_4_nested", "AgentSet: 4 fields; a member that is itself a derived set", covers=["cover.reached_end"], tests=True, timeout=900, replayable=False),
+                  de("c20_agentset_4", "AgentSet: 4 fields", covers=["cover.reached_end"], tests=True, timeout=900, replayable=False),
+                  de("c20_agentset_nested", "AgentSet: a member that is itself a derived set (own build, --cfg verif_nested)", covers=["cover.reached_end"], tests=True, timeout=900, replayable=False, rustflags="--cfg verif_nested"),
                   de("c20_agentset_8", "AgentSet: 8 fields of mixed types", covers=["cover.reached_end"], tests=True, timeout=900, replayable=False),
-                  de("c20_marketagentset_1_3_nested", "MarketAgentSet: 1, 3 fields, nested", covers=["cover.reached_end"], tests=True, timeout=900, replayable=False),
+                  de("c20_marketagentset_1_3", "MarketAgentSet: 1, 3 fields", covers=["cover.reached_end"], tests=True, timeout=900, replayable=False),
+                  de("c20_marketagentset_nested", "MarketAgentSet: a member that is itself a derived set (own build, --cfg verif_nested)", covers=["cover.reached_end"], tests=True, timeout=900, replayable=False, rustflags="--cfg verif_nested"),
                   de("c20_marketagentset_8", "MarketAgentSet: 8 fields", covers=["cover.reached_end"], tests=True, timeout=900, replayable=False),
                   de("c20_agentset_names_and_commas", "AgentSet: field names not in alphabetical order; one-line struct without trailing comma; single field", covers=["cover.reached_end"], tests=True, timeout=900, replayable=False),
                   de("c20_marketagentset_names_and_commas", "MarketAgentSet: same three shapes", covers=["cover.reached_end"], tests=True, timeout=900, replayable=False),
